@@ -86,6 +86,10 @@ pub struct Exec {
     msg_shapes: HashMap<u32, (usize, String)>,
     /// script label of a link -> its AMQP link name
     names: HashMap<String, String>,
+    /// per link name: (initial delivery count, deliveries started) of the EUT as sender
+    eut_sender_dc: HashMap<String, (u32, u32)>,
+    peer_link_name: HashMap<(u16, u32), String>,
+    gates: HashMap<String, std::sync::Arc<fe2o3_amqp::verif::Gate>>,
 }
 
 fn class_of(dbg: &str) -> String {
@@ -137,7 +141,7 @@ impl Exec {
         Exec { log: vec![], t0: tokio::time::Instant::now(), side_listener: listener, peer: None, buf: vec![], eof_logged: false, sh: Shifts::default(), conn: None, sessions: HashMap::new(),
                senders: HashMap::new(), receivers: HashMap::new(), held: HashMap::new(), futs: HashMap::new(), calls: vec![], next_call: 1, roles: HashMap::new(),
                pending_begins: vec![], eut_channel: HashMap::new(), eut_dids: HashMap::new(), eut_frames: HashMap::new(), eut_noi: HashMap::new(),
-               out_progress: HashMap::new(), sent_queue: HashMap::new(), link_of_handle: HashMap::new(), pending_attach: vec![], msg_shapes: HashMap::new(), names: HashMap::new() }
+               out_progress: HashMap::new(), sent_queue: HashMap::new(), link_of_handle: HashMap::new(), pending_attach: vec![], msg_shapes: HashMap::new(), names: HashMap::new(), eut_sender_dc: HashMap::new(), peer_link_name: HashMap::new(), gates: HashMap::new() }
     }
     fn t(&self) -> u64 { tokio::time::Instant::now().duration_since(self.t0).as_millis() as u64 }
     fn emit(&mut self, mut j: J) {
@@ -206,10 +210,12 @@ impl Exec {
                 let eut_sender = a.role == fe2o3_amqp_types::definitions::Role::Sender;
                 self.roles.insert((true, ch, a.handle.0), eut_sender);
                 self.link_of_handle.insert((ch, a.handle.0), a.name.clone());
+                if eut_sender { self.eut_sender_dc.insert(a.name.clone(), (a.initial_delivery_count.unwrap_or(0), 0)); }
             }
             Performative::Transfer(t) => {
                 *self.eut_frames.entry(ch).or_insert(0) += 1;
                 if let Some(d) = t.delivery_id { let v = self.eut_dids.entry(ch).or_default(); if v.last() != Some(&d) { v.push(d); } }
+                if !self.out_progress.contains_key(&(ch, t.handle.0)) { if let Some(n) = self.link_of_handle.get(&(ch, t.handle.0)) { if let Some(e) = self.eut_sender_dc.get_mut(n) { e.1 += 1; } } }
             }
             _ => {}
         }
@@ -303,6 +309,11 @@ impl Exec {
             let (noi, seen) = (self.eut_noi.get(&ech).copied().unwrap_or(self.sh.out.wrapping_add(1000)), self.eut_frames.get(&ech).copied().unwrap_or(0) as i64);
             f["nii"] = json!(off(noi.wrapping_add((seen - lag).max(0) as u32), self.sh.out));
         } }
+        if name == "flow" { if let Some(lag) = f.get("dc").and_then(|r| r.get("seen")).and_then(|r| r.as_i64()) {
+            let h = f.get("h").and_then(|x| x.as_u64()).unwrap_or(0) as u32;
+            let (idc, dels) = self.peer_link_name.get(&(ch, h)).and_then(|n| self.eut_sender_dc.get(n)).copied().unwrap_or((self.sh.dc_out, 0));
+            f["dc"] = json!(off(idc.wrapping_add((dels as i64 - lag).max(0) as u32), self.sh.dc_out));
+        } }
         if name == "disposition" { for k in ["first", "last"] { if let Some(d) = f.get(k).and_then(|r| r.get("d")).and_then(|r| r.as_u64()) {
             let ech = e.get("ech").and_then(|x| x.as_u64()).unwrap_or(0) as u16;
             match self.eut_dids.get(&ech).and_then(|v| v.get(d as usize)) { Some(id) => f[k] = json!(off(*id, self.sh.out)), None => return self.skip(e, "delivery not seen") } } } }
@@ -311,6 +322,7 @@ impl Exec {
         if let Performative::Attach(a) = &p {
             let peer_sender = a.role == fe2o3_amqp_types::definitions::Role::Sender;
             self.roles.insert((false, ch, a.handle.0), !peer_sender);
+            self.peer_link_name.insert((ch, a.handle.0), a.name.clone());
         }
         let mut body = serde_amqp::to_vec(&p).unwrap();
         let mut pl = json!({"m": -1, "off": 0, "len": 0, "ok": true, "total": 0});
@@ -588,6 +600,8 @@ impl Exec {
             "PEof" => { if let Some(mut io) = self.peer.take() { let _ = io.shutdown().await; if e.get("keep_read").and_then(|x| x.as_bool()).unwrap_or(true) { self.peer = Some(io); } } self.emit(json!({"ev": "PEof"})); }
             "PReset" => { self.drain().await; self.peer = None; self.emit(json!({"ev": "PReset"})); }
             "Advance" => { let ms = e["ms"].as_u64().unwrap_or(0); tokio::time::sleep(Duration::from_millis(ms)).await; self.emit(json!({"ev": "Advance", "ms": ms})); }
+            "HookArm" => { let n = e["name"].as_str().unwrap_or("").to_string(); let g = fe2o3_amqp::verif::arm(&n); self.gates.insert(n.clone(), g); self.emit(json!({"ev": "Hook", "op": "arm", "name": n, "hits": 0})); }
+            "HookRelease" => { let n = e["name"].as_str().unwrap_or("").to_string(); let hits = self.gates.get(&n).map(|g| { let h = g.hits.load(Ordering::SeqCst); g.release(); h }).unwrap_or(0); fe2o3_amqp::verif::disarm(&n); self.gates.remove(&n); self.emit(json!({"ev": "Hook", "op": "release", "name": n, "hits": hits})); }
             "Settle" => {}
             other => { self.emit(json!({"ev": "Skip", "what": other, "why": "unknown event"})); }
         }
@@ -604,6 +618,7 @@ impl Exec {
         tokio::time::sleep(Duration::from_secs(3600)).await;
         self.settle().await;
         self.emit(json!({"ev": "End", "pending": self.calls.iter().map(|c| json!({"call": c.id, "op": c.op, "scope": c.scope})).collect::<Vec<_>>(), "panics": crate::mon::panic_count()}));
+        fe2o3_amqp::verif::disarm_all();
         for c in &self.calls { c.h.abort(); }
         // forget the handles: dropping them would start teardown traffic nobody observes
         std::mem::forget(self.conn.take()); for (_, s) in self.sessions.drain() { std::mem::forget(s); }
